@@ -26,7 +26,7 @@ from dask._task_spec import Task, TaskRef, Alias
 
 PROPERTY = "C20"
 LEVEL = "other"
-BUDGET = {"quick": 240, "thorough": 1800}
+BUDGET = {"quick": 240, "thorough": 2400}
 
 EXPLANATION = (
     "Bounded symbolic execution (symx: SInt proxies over z3 Int, fork on every comparison, DFS over decision "
@@ -55,10 +55,12 @@ OUTSIDE = ["vindex, blocks[], dask-array indexers; integer / boolean NumPy array
 
 BOUNDS = {
     "quick": dict(chunks_per_axis="1..3", chunk_size="[1,4] (1-d), [1,3] (2-d)", start_stop="[-2*dim-2, 2*dim+2] or None",
-                  step="{None,1,2,3,-1,-2,-3}", int_index="[-dim-2, dim+1]", ndim="1, 2 (2-d: <=2 chunks per axis)"),
+                  step="{None,1,2,3,-1,-2,-3}", int_index="[-dim-2, dim+1]", ndim="1, 2 (2-d: <=2 chunks per axis)",
+                  take_mixed="3-d, one list (len<=2, every value) on any axis whose 3 chunks have size 0..1, ints/slices on the other axes, <=1-2 None at every position, index dtype int64 / int8 (axis scaled x70)"),
     "thorough": dict(chunks_per_axis="1..4 (1-d), 1..3 (2-d)", chunk_size="[1,6] (1-d), [1,4] (2-d)",
                      start_stop="[-2*dim-3, 2*dim+3] or None", step="{None,1..4,-1..-4}", int_index="[-dim-2, dim+1]",
-                     ndim="1, 2 with None/newaxis"),
+                     ndim="1, 2 (2-d: 2 chunks per axis) with None/newaxis",
+                     take_mixed="as quick with len<=2-3, <=2 None"),
 }
 
 
@@ -663,7 +665,7 @@ def obligations(tier):
         obs.append(mk_take(5, 3, False))
         obs.append(mk_take(4, 2, True))
         obs.append(mk_mixed(2, 2, 1, ("int64", "int8")))
-        obs.append(mk_mixed(3, 0, 2, ("int64",)))
+        obs.append(mk_mixed(3, 0, 1, ("int64",)))
         obs.append(mk_tuple(1, 4, 3))
         obs.append(mk_tuple(2, 4, 2))
         obs.append(mk_tuple(3, 4, 2))
@@ -672,7 +674,8 @@ def obligations(tier):
                 for wn in (0, 1, 2, 3):
                     if wn and st != (2, -2):
                         continue
+                    if k == ("s", "s") and wn in (1, 3):
+                        continue        # ~135k paths each; None before/after both slices is covered by the is/si variants and mk_tuple
                     obs.append(mk_2d(k, (2, 2), st, 3, wn))
-        obs.append(mk_2d(("s", "s"), (3, 2), (-2, 3), 3, 0))
         obs.append(mk_2d(("i", "i"), (3, 3), (None, None), 4, 1))
     return obs
